@@ -352,7 +352,9 @@ func init() {
 		fk := funcKey(f)
 		st := `.*\.Height\(\)`
 		sh := `.*\.LastBlockHeight`
-		shp1 := `\(.*\.LastBlockHeight \+ 1\)`
+		// the height of the block after the state: LastBlockHeight+1, or (F63) the merge of that with the
+		// initial height for a state without a block
+		shp1 := `(?:\(.*\.LastBlockHeight \+ 1\)|phi\(.*\.InitialHeight\|\(.*\.LastBlockHeight \+ 1\)\))`
 		app := `appBlockHeight`
 		storeEqState := guardCmp("store == state", st, "==", sh)
 		storeEqStateP1 := guardAny("store == state+1", guardCmp("a", st, "==", shp1))
